@@ -25,6 +25,8 @@ use std::rc::Rc;
 #[derive(Clone, Debug, PartialEq, Eq)]
 pub enum Tok {
     Ws,
+    /// an empty comment `/**/`: white space of another token kind (`Token::Comment`)
+    Cmt,
     LParen,
     RParen,
     Comma,
@@ -40,6 +42,7 @@ fn parse_tok(s: &str) -> Option<Tok> {
     let b = s.as_bytes();
     Some(match s {
         "~" => Tok::Ws,
+        "/**/" => Tok::Cmt,
         "(" => Tok::LParen,
         ")" => Tok::RParen,
         "," => Tok::Comma,
@@ -63,6 +66,7 @@ fn parse_toks(s: &str) -> Option<Vec<Tok>> {
 fn enc_tok(t: &Tok) -> String {
     match t {
         Tok::Ws => "~".into(),
+        Tok::Cmt => "/**/".into(),
         Tok::LParen => "(".into(),
         Tok::RParen => ")".into(),
         Tok::Comma => ",".into(),
@@ -78,6 +82,7 @@ fn enc_toks(ts: &[Tok]) -> String {
 fn spell(t: &Tok) -> String {
     match t {
         Tok::Ws => " ".into(),
+        Tok::Cmt => "/**/".into(),
         _ => enc_tok(t),
     }
 }
@@ -211,7 +216,13 @@ impl Program {
 
     fn render_file(file: &File) -> String {
         let mut s = String::new();
-        for l in &file.lines {
+        for (i, l) in file.lines.iter().enumerate() {
+            // a directive may be preceded by white space (removed by the line state machine): vary it by position
+            if !matches!(l, Line::Text(_)) {
+                for _ in 0..(i % 3) {
+                    s.push(' ');
+                }
+            }
             match l {
                 Line::Define(t) => {
                     s.push_str("#define");
@@ -243,6 +254,7 @@ use rssl::text::tokens::Token;
 fn tok_of_real(t: &Token) -> Option<Tok> {
     Some(match t {
         Token::Whitespace => Tok::Ws,
+        Token::Comment => Tok::Cmt,
         Token::LeftParen => Tok::LParen,
         Token::RightParen => Tok::RParen,
         Token::Comma => Tok::Comma,
@@ -262,7 +274,7 @@ fn tok_of_real(t: &Token) -> Option<Tok> {
 
 fn spell_real(t: &Token) -> String {
     match tok_of_real(t) {
-        Some(Tok::Ws) => "~".into(),
+        Some(Tok::Ws) | Some(Tok::Cmt) => "~".into(),
         Some(t) => enc_tok(&t),
         None => match t {
             Token::PlusPlus => "++".into(),
@@ -324,7 +336,7 @@ fn program_faithful(p: &Program) -> Result<(), String> {
             match l {
                 Line::Define(t) | Line::Undef(t) => {
                     // the directive name must be separated from what follows
-                    if !matches!(t.first(), Some(Tok::Ws)) && !t.is_empty() {
+                    if !matches!(t.first(), Some(Tok::Ws) | Some(Tok::Cmt)) && !t.is_empty() {
                         return Err("directive glued to its operand".into());
                     }
                     if !lex_faithful(t) {
@@ -389,6 +401,7 @@ fn err_name(e: &rssl_preprocess::PreprocessError) -> String {
         E::EndIfNotMatched => "EndIfNotMatched".into(),
         E::UnknownPragma(_) => "UnknownPragma".into(),
         E::PragmaOnceInUnknownFile => "PragmaOnceInUnknownFile".into(),
+        E::IncludeDepthExceeded(_) => "IncludeDepthExceeded".into(),
         // variants added to the implementation after this harness was written (keeps the harness building)
         #[allow(unreachable_patterns)]
         _ => "OtherPreprocessError".into(),
@@ -410,10 +423,25 @@ fn run_real(p: &Program) -> Real {
     let values: Vec<(String, String)> = p.api.iter().map(|(n, v)| (spell_all(n), spell_all(v))).collect();
     let defines: Vec<(&str, &str)> = values.iter().map(|(n, v)| (n.as_str(), v.as_str())).collect();
     let entry = p.files[0].name.clone();
+    let plain = p.files.iter().all(|f| f.name == f.real);
     let r = guard(|| {
         let mut sm = rssl::text::SourceManager::new();
-        let mut inc = AliasFiles(files);
-        match rssl_preprocess::preprocess(&entry, &mut sm, &mut inc, &defines) {
+        let mut inc = AliasFiles(files.clone());
+        // without aliases the repository's own handler for arrays of (name, text) pairs serves the files
+        let pairs: Vec<(&str, &str)> = files.iter().map(|f| (f.0.as_str(), f.2.as_str())).collect();
+        macro_rules! with_array {
+            ($($n:literal),*) => {
+                match pairs.len() {
+                    $($n if plain => {
+                        let mut arr: [(&str, &str); $n] = [("", ""); $n];
+                        arr.copy_from_slice(&pairs);
+                        rssl_preprocess::preprocess(&entry, &mut sm, &mut arr, &defines)
+                    })*
+                    _ => rssl_preprocess::preprocess(&entry, &mut sm, &mut inc, &defines),
+                }
+            };
+        }
+        match with_array!(1, 2, 3, 4, 5, 6) {
             Ok(tokens) => {
                 let lexed = rssl_preprocess::prepare_tokens(&tokens);
                 let mut out = Vec::new();
@@ -451,6 +479,10 @@ enum RK {
     HashHashText,
     Nl,
     Placemarker,
+    /// end of the replacement list of one invocation (only pushed when a `reinvoke_*` deviation is switched on);
+    /// the token's hide set is the one of the invocation, the payload the invoked macro if it is function-like and the
+    /// length of the output when the invocation was met (where the expansion starts in the output)
+    RegionEnd(Option<String>, usize),
 }
 
 type HS = Rc<BTreeSet<String>>;
@@ -500,6 +532,13 @@ struct Dev {
     api_dup_keeps_first: bool,
     /// `#pragma once` is keyed by the name written in the `#include`, not by the file it resolves to
     once_by_include_name: bool,
+    /// when the expansion of a replacement list is complete and ends in the name of a function-like macro that is
+    /// painted by an inner expansion (C: never replaced again) but is neither the macro just applied nor one under
+    /// expansion at the level of the invocation, and `(` follows, RSSL invokes it (`early_function_pos`)
+    reinvoke_painted: bool,
+    /// the same for a name that C kept because the token that followed it at the time was not `(` (it was a macro that
+    /// later expanded to nothing)
+    reinvoke_deferred: bool,
 }
 
 const DEV_NAMES: &[&str] = &[
@@ -510,6 +549,8 @@ const DEV_NAMES: &[&str] = &[
     "argument-repainted",
     "duplicate-api-define",
     "pragma-once-by-include-name",
+    "painted-function-name-reinvoked",
+    "function-name-before-vanished-macro-invoked",
 ];
 
 impl Dev {
@@ -522,6 +563,8 @@ impl Dev {
             args_unpainted: b & 16 != 0,
             api_dup_keeps_first: b & 32 != 0,
             once_by_include_name: b & 64 != 0,
+            reinvoke_painted: b & 128 != 0,
+            reinvoke_deferred: b & 256 != 0,
         }
     }
     fn names(b: u32) -> String {
@@ -556,7 +599,7 @@ fn rk_spelling(k: &RK) -> String {
         RK::Comma => ",".into(),
         RK::Paste | RK::HashHashText => "##".into(),
         RK::Nl => "\n".into(),
-        RK::Placemarker => "".into(),
+        RK::Placemarker | RK::RegionEnd(..) => "".into(),
     }
 }
 
@@ -572,7 +615,7 @@ const PUNCT_MERGE: &[(&str, &str, &str)] = &[
 impl<'a> Reference<'a> {
     fn rk_of(t: &Tok, in_body: bool) -> Option<RK> {
         Some(match t {
-            Tok::Ws => return None,
+            Tok::Ws | Tok::Cmt => return None,
             Tok::LParen => RK::LParen,
             Tok::RParen => RK::RParen,
             Tok::Comma => RK::Comma,
@@ -591,6 +634,9 @@ impl<'a> Reference<'a> {
 
     /// `#define` with the given tokens after the directive name
     fn define(&mut self, toks: &[Tok], paste_active: bool) -> Result<(), RefErr> {
+        // a comment is white space
+        let toks: Vec<Tok> = toks.iter().map(|t| if *t == Tok::Cmt { Tok::Ws } else { t.clone() }).collect();
+        let toks = &toks[..];
         let mut i = 0;
         while i < toks.len() && toks[i] == Tok::Ws {
             i += 1;
@@ -637,7 +683,7 @@ impl<'a> Reference<'a> {
     }
 
     fn undef(&mut self, toks: &[Tok]) -> Result<(), RefErr> {
-        let t: Vec<&Tok> = toks.iter().filter(|t| **t != Tok::Ws).collect();
+        let t: Vec<&Tok> = toks.iter().filter(|t| **t != Tok::Ws && **t != Tok::Cmt).collect();
         match t.as_slice() {
             [Tok::Id(n)] => {
                 self.macros.remove(n);
@@ -661,10 +707,35 @@ impl<'a> Reference<'a> {
         let mut out = Vec::new();
         // `ts` is kept reversed so that the head is popped cheaply
         ts.reverse();
+        let markers = self.dev.reinvoke_painted || self.dev.reinvoke_deferred;
         while let Some(t) = ts.pop() {
             self.tick()?;
             let name = match &t.k {
                 RK::Id(n) => n.clone(),
+                RK::RegionEnd(last_fn, start) => {
+                    // RSSL mimicry: the replacement list of an invocation has been expanded completely.  If tokens
+                    // remain in the enclosing list (the next entry is not another end marker), RSSL looks at the
+                    // expansion once more for a function-like name whose `(` follows the expansion.
+                    let follows = matches!(ts.last(), Some(RTok { k: RK::LParen, .. }));
+                    if follows && out.len() > *start {
+                        let again = match out.last() {
+                            Some(RTok { k: RK::Id(g), hs }) => {
+                                let fnlike = matches!(self.macros.get(g), Some(m) if m.params.is_some());
+                                let painted = hs.contains(g);
+                                fnlike
+                                    && !t.hs.contains(g)
+                                    && last_fn.as_deref() != Some(g.as_str())
+                                    && ((painted && self.dev.reinvoke_painted) || (!painted && self.dev.reinvoke_deferred))
+                            }
+                            _ => false,
+                        };
+                        if again {
+                            let g = out.pop().unwrap();
+                            ts.push(RTok { k: g.k, hs: t.hs.clone() });
+                        }
+                    }
+                    continue;
+                }
                 _ => {
                     out.push(t);
                     continue;
@@ -674,7 +745,7 @@ impl<'a> Reference<'a> {
                 if let Some(m) = self.macros.get(&name) {
                     if m.params.is_some() {
                         let mut j = ts.len();
-                        while j > 0 && ts[j - 1].k == RK::Nl {
+                        while j > 0 && matches!(ts[j - 1].k, RK::Nl | RK::RegionEnd(..)) {
                             j -= 1;
                         }
                         if j > 0 && ts[j - 1].k == RK::LParen {
@@ -697,6 +768,9 @@ impl<'a> Reference<'a> {
                     let mut hs = (*t.hs).clone();
                     hs.insert(name.clone());
                     let body = self.subst(&m, &[], Rc::new(hs))?;
+                    if markers {
+                        ts.push(RTok { k: RK::RegionEnd(None, out.len()), hs: t.hs.clone() });
+                    }
                     for b in body.into_iter().rev() {
                         ts.push(b);
                     }
@@ -705,8 +779,10 @@ impl<'a> Reference<'a> {
                     // look for `(`, skipping line ends (C) -- or not (RSSL deviation)
                     let mut j = ts.len();
                     let mut saw_nl = false;
-                    while j > 0 && ts[j - 1].k == RK::Nl {
-                        saw_nl = true;
+                    while j > 0 && matches!(ts[j - 1].k, RK::Nl | RK::RegionEnd(..)) {
+                        if ts[j - 1].k == RK::Nl {
+                            saw_nl = true;
+                        }
                         j -= 1;
                     }
                     let is_call = j > 0 && ts[j - 1].k == RK::LParen;
@@ -728,6 +804,7 @@ impl<'a> Reference<'a> {
                             None => return Err(RefErr::Unterminated),
                         };
                         match a.k {
+                            RK::RegionEnd(..) => {}
                             RK::LParen => {
                                 depth += 1;
                                 args.last_mut().unwrap().push(a);
@@ -753,9 +830,13 @@ impl<'a> Reference<'a> {
                     } else if args.len() != params.len() {
                         return Err(RefErr::Arity);
                     }
-                    let mut hs: BTreeSet<String> = t.hs.intersection(&close_hs).cloned().collect();
+                    let outer: BTreeSet<String> = t.hs.intersection(&close_hs).cloned().collect();
+                    let mut hs = outer.clone();
                     hs.insert(name.clone());
                     let body = self.subst(&m, &args, Rc::new(hs))?;
+                    if markers {
+                        ts.push(RTok { k: RK::RegionEnd(Some(name.clone()), out.len()), hs: Rc::new(outer) });
+                    }
                     for b in body.into_iter().rev() {
                         ts.push(b);
                     }
@@ -996,7 +1077,7 @@ fn run_reference(p: &Program, dev: Dev, notes: &mut RefNotes) -> Result<Vec<Stri
         line.push(Tok::Ws);
         line.extend(v.iter().cloned());
         if dev.api_dup_keeps_first {
-            if let Some(Tok::Id(first)) = n.iter().find(|t| **t != Tok::Ws) {
+            if let Some(Tok::Id(first)) = n.iter().find(|t| **t != Tok::Ws && **t != Tok::Cmt) {
                 if r.macros.contains_key(first) {
                     continue;
                 }
@@ -1035,7 +1116,7 @@ struct Gen<'a> {
 }
 
 fn push_sep(out: &mut Vec<Tok>) {
-    if !matches!(out.last(), Some(Tok::Ws) | None) {
+    if !matches!(out.last(), Some(Tok::Ws) | Some(Tok::Cmt) | None) {
         out.push(Tok::Ws);
     }
 }
@@ -1140,6 +1221,20 @@ impl<'a> Gen<'a> {
                 if matches!(a, Tok::Int(_)) && self.rng.chance(4, 5) {
                     a = Tok::Id(self.rng.pick(PLAIN).to_string());
                 }
+                // a paste that makes the name of a macro of the program (the merged token is read again)
+                let made: Option<(&str, Tok)> = self.macros.iter().find_map(|m| match m.name.as_str() {
+                    "PQ" => Some(("P", Tok::Id("Q".into()))),
+                    "P1" => Some(("P", Tok::Int("1".into()))),
+                    _ => None,
+                });
+                let mut forced_right = None;
+                if let Some((l, r)) = made {
+                    if self.rng.chance(1, 2) {
+                        a = Tok::Id(l.to_string());
+                        forced_right = Some(r);
+                        self.hist.add("body:paste-makes-a-macro-name");
+                    }
+                }
                 out.push(a);
                 if self.rng.chance(1, 2) {
                     out.push(Tok::Ws);
@@ -1148,12 +1243,63 @@ impl<'a> Gen<'a> {
                 if self.rng.chance(1, 2) {
                     out.push(Tok::Ws);
                 }
-                let b = self.paste_operand(params);
+                let b = match forced_right {
+                    Some(r) => r,
+                    None => self.paste_operand(params),
+                };
                 out.push(b);
                 budget -= 3;
                 self.hist.add("body:paste");
             } else {
                 self.element(params, 2, &mut out, &mut budget);
+            }
+        }
+        // an invocation that is completed by the text after the expansion: the body ends in the name of a
+        // function-like macro, possibly followed by something that disappears (an empty argument, a macro with an
+        // empty body) or stays
+        if self.rng.chance(1, 5) {
+            let fns: Vec<usize> = (0..self.macros.len()).filter(|i| self.macros[*i].params.is_some()).collect();
+            if !fns.is_empty() {
+                let mi = *self.rng.pick(&fns);
+                push_sep(&mut out);
+                out.push(Tok::Id(self.macros[mi].name.clone()));
+                self.hist.add("body:ends-in-function-name");
+                match self.rng.below(6) {
+                    0 | 1 if params > 0 => {
+                        out.push(Tok::Ws);
+                        out.push(Tok::Id(PARAM_NAMES[self.rng.below(params as u64) as usize].to_string()));
+                        self.hist.add("body:function-name-then-parameter");
+                    }
+                    2 | 3 => {
+                        let objs: Vec<usize> = (0..self.macros.len()).filter(|i| self.macros[*i].params.is_none()).collect();
+                        if !objs.is_empty() {
+                            let oi = *self.rng.pick(&objs);
+                            out.push(Tok::Ws);
+                            out.push(Tok::Id(self.macros[oi].name.clone()));
+                            self.hist.add("body:function-name-then-object-macro");
+                        }
+                    }
+                    _ => {}
+                }
+            }
+        }
+        out
+    }
+
+    /// more white space: a blank becomes a comment now and then, and token boundaries get white space
+    fn sprinkle(&mut self, ts: Vec<Tok>) -> Vec<Tok> {
+        let mut out = Vec::with_capacity(ts.len() + 4);
+        for (i, t) in ts.iter().enumerate() {
+            if *t == Tok::Ws && self.rng.chance(1, 5) {
+                out.push(Tok::Cmt);
+                self.hist.add("ws:comment");
+                continue;
+            }
+            out.push(t.clone());
+            let next_is_ws = matches!(ts.get(i + 1), Some(Tok::Ws) | Some(Tok::Cmt) | None);
+            if *t != Tok::Ws && !next_is_ws && self.rng.chance(1, 14) {
+                out.push(if self.rng.chance(1, 2) { Tok::Ws } else { Tok::Cmt });
+                self.hist.add("ws:inserted-at-token-boundary");
             }
         }
         out
@@ -1195,6 +1341,7 @@ impl<'a> Gen<'a> {
             if b.first() == Some(&Tok::Ws) {
                 b.remove(0);
             }
+            let b = self.sprinkle(b);
             t.extend(b);
         }
         t
@@ -1211,6 +1358,27 @@ impl<'a> Gen<'a> {
         if out.first() == Some(&Tok::Ws) {
             out.remove(0);
         }
+        // the text goes on with parenthesised groups: arguments for a function-like name an expansion ends in
+        if self.rng.chance(1, 4) {
+            let groups = 1 + self.rng.below(3);
+            for _ in 0..groups {
+                if self.rng.chance(1, 3) {
+                    out.push(Tok::Ws);
+                }
+                out.push(Tok::LParen);
+                let n = self.rng.below(3);
+                for a in 0..n {
+                    if a > 0 {
+                        out.push(Tok::Comma);
+                    }
+                    let t = self.atom(0);
+                    out.push(t);
+                }
+                out.push(Tok::RParen);
+            }
+            self.hist.add("site:parenthesised-groups-after-the-invocation");
+        }
+        let mut out = self.sprinkle(out);
         // split inside an argument list now and then
         if self.rng.chance(1, 8) {
             if let Some(pos) = out.iter().position(|t| *t == Tok::Comma) {
@@ -1262,7 +1430,14 @@ fn generate(rng: &mut Rng, hist: &mut Hist) -> Vec<Program> {
     let mut macros = Vec::new();
     for i in 0..nmac {
         let params = if rng.chance(2, 5) { None } else { Some(rng.below(4) as usize) };
-        macros.push(GenMacro { name: MACRO_NAMES[i].to_string(), params });
+        // now and then a macro whose name can be made by `##` (`A ## B`, `P ## 1`): the merged token is read again
+        let name = if i + 1 == nmac && rng.chance(1, 4) {
+            hist.add("macro:name-that-a-paste-can-make");
+            rng.pick(&["PQ", "P1"]).to_string()
+        } else {
+            MACRO_NAMES[i].to_string()
+        };
+        macros.push(GenMacro { name, params });
     }
     hist.add(&format!("macros:{}", nmac));
     let mut g = Gen { rng, macros, hist };
@@ -1323,6 +1498,41 @@ fn generate(rng: &mut Rng, hist: &mut Hist) -> Vec<Program> {
             files[fi].lines.push(Line::Warning);
         }
     }
+    // malformed directives now and then (the whole compilation is rejected: InvalidDefine / InvalidUndef)
+    if g.rng.chance(1, 30) {
+        let bad: Vec<Vec<Tok>> = vec![
+            vec![],
+            vec![Tok::Ws, Tok::Int("1".into()), Tok::Ws, Tok::Id("P".into())],
+            vec![Tok::Ws, Tok::Id("F".into()), Tok::LParen, Tok::Int("1".into()), Tok::RParen, Tok::Ws, Tok::Id("P".into())],
+            vec![Tok::Ws, Tok::Id("F".into()), Tok::LParen, Tok::Id("X".into()), Tok::Ws, Tok::Id("P".into())],
+            vec![Tok::Ws, Tok::Id("F".into()), Tok::LParen, Tok::Id("X".into()), Tok::Ws, Tok::Id("Y".into()), Tok::RParen],
+            vec![Tok::Ws, Tok::Id("F".into()), Tok::LParen, Tok::Id("X".into()), Tok::Comma, Tok::RParen, Tok::Ws, Tok::Id("P".into())],
+            vec![Tok::Ws, Tok::Id("F".into()), Tok::LParen, Tok::Comma, Tok::Id("X".into()), Tok::RParen],
+            vec![Tok::Ws, Tok::LParen, Tok::Id("X".into()), Tok::RParen],
+        ];
+        let l = g.rng.pick(&bad).clone();
+        let fi = g.rng.below(nfiles as u64) as usize;
+        let at = g.rng.below(files[fi].lines.len() as u64 + 1) as usize;
+        let at = if once[fi] { at.max(1) } else { at };
+        let at = safe_pos(&files[fi].lines, at.min(files[fi].lines.len()));
+        files[fi].lines.insert(at, Line::Define(l));
+        g.hist.add("line:malformed-define");
+    }
+    if g.rng.chance(1, 40) {
+        let bad: Vec<Vec<Tok>> = vec![
+            vec![],
+            vec![Tok::Ws, Tok::Int("1".into())],
+            vec![Tok::Ws, Tok::Id("A".into()), Tok::Ws, Tok::Id("B".into())],
+            vec![Tok::Ws, Tok::Id("A".into()), Tok::LParen, Tok::RParen],
+        ];
+        let l = g.rng.pick(&bad).clone();
+        let fi = g.rng.below(nfiles as u64) as usize;
+        let at = g.rng.below(files[fi].lines.len() as u64 + 1) as usize;
+        let at = if once[fi] { at.max(1) } else { at };
+        let at = safe_pos(&files[fi].lines, at.min(files[fi].lines.len()));
+        files[fi].lines.insert(at, Line::Undef(l));
+        g.hist.add("line:malformed-undef");
+    }
     // include edges: forward edges anywhere; backward edges only into pragma-once files
     for i in 0..nfiles {
         for j in 1..nfiles {
@@ -1345,6 +1555,18 @@ fn generate(rng: &mut Rng, hist: &mut Hist) -> Vec<Program> {
                     g.hist.add("include:repeated");
                 }
             }
+        }
+    }
+    // an include cycle through a file without `#pragma once` now and then: the nesting limit of #include
+    if g.rng.chance(1, 60) {
+        let cands: Vec<usize> = (0..nfiles).filter(|i| !once[*i]).collect();
+        if !cands.is_empty() {
+            let i = *g.rng.pick(&cands);
+            let name = files[i].name.clone();
+            let at = g.rng.below(files[i].lines.len() as u64 + 1) as usize;
+            let at = safe_pos(&files[i].lines, at.min(files[i].lines.len()));
+            files[i].lines.insert(at, Line::Include(name));
+            g.hist.add("include:cycle-without-pragma-once");
         }
     }
     // every placement of the leading definitions: all in the file / all in the API list / a random split
@@ -1411,7 +1633,22 @@ fn generate(rng: &mut Rng, hist: &mut Hist) -> Vec<Program> {
 // judging
 // ------------------------------------------------------------------------------------------------
 
+/// Without persistent paint (deviation `argument-repainted`) some small programs expand to millions of tokens in the
+/// real code (and in the model, which mirrors it): predicted with the reference run in RSSL-like mode under a small
+/// budget.  (The prediction misses some; generated programs therefore run in a worker process under a time limit.)
+fn predicted_to_explode(p: &Program) -> bool {
+    let mut n0 = RefNotes { step_limit: Some(40_000), ..RefNotes::default() };
+    let r0 = run_reference(p, Dev::from_bits(8 | 16 | 128 | 256), &mut n0);
+    let big = matches!(&r0, Ok(t) if t.len() > 6000);
+    matches!(r0, Err(RefErr::Steps)) || big
+}
+
 fn judge(p: &Program, out: &mut Out, hist: &mut Hist) {
+    judge_with(p, None, out, hist)
+}
+
+/// `real`: the result of the real preprocessor if it was obtained elsewhere (worker process)
+fn judge_with(p: &Program, real: Option<Real>, out: &mut Out, hist: &mut Hist) {
     let req = p.encode();
     if std::env::var("C12_TRACE").is_ok() {
         eprintln!("TRACE {}", req);
@@ -1424,19 +1661,17 @@ fn judge(p: &Program, out: &mut Out, hist: &mut Hist) {
     // Without persistent paint (deviation `argument-repainted`) some small programs expand to millions of tokens
     // in the real code (and in the model, which mirrors it): predict that with the reference run in RSSL-like mode
     // under a small budget and do not run such a program in-process.
-    {
-        let mut n0 = RefNotes { step_limit: Some(40_000), ..RefNotes::default() };
-        let r0 = run_reference(p, Dev::from_bits(8 | 16), &mut n0);
-        let big = matches!(&r0, Ok(t) if t.len() > 6000);
-        if matches!(r0, Err(RefErr::Steps)) || big {
-            hist.add("not-run:expansion-explodes-without-persistent-paint");
-            if std::env::var("C12_TRACE").is_ok() {
-                eprintln!("EXPLODES {}", req);
-            }
-            return;
+    if real.is_none() && predicted_to_explode(p) {
+        hist.add("not-run:expansion-explodes-without-persistent-paint");
+        if std::env::var("C12_TRACE").is_ok() {
+            eprintln!("EXPLODES {}", req);
         }
+        return;
     }
-    let real = run_real(p);
+    let real = match real {
+        Some(r) => r,
+        None => run_real(p),
+    };
     let obs = match &real {
         Real::Ok(t) => format!("ok {}", t.join(" ")).trim_end().to_string(),
         Real::Err(e) => format!("err {}", e),
@@ -1468,6 +1703,12 @@ fn judge(p: &Program, out: &mut Out, hist: &mut Hist) {
             hist.add("oracle-not-applicable:reference-gave-up");
             "ok".to_string()
         }
+        (Real::Ok(_), Err(RefErr::PasteInvalid)) => {
+            // C11 6.10.3.3p3: if the result of `##` is not a valid preprocessing token the behaviour is undefined;
+            // RSSL pastes while it rescans, so an operand may have been consumed or produced by an expansion before
+            hist.add("oracle-not-applicable:paste-result-is-not-a-token-in-C(undefined)");
+            "ok".to_string()
+        }
         (Real::Ok(t), Ok(e)) if t == e => {
             hist.add("agree:tokens");
             "ok".to_string()
@@ -1485,21 +1726,29 @@ fn judge(p: &Program, out: &mut Out, hist: &mut Hist) {
             let mut class = "unexplained".to_string();
             // smallest set of deviations that reproduces the real output
             let mut best: Option<u32> = None;
-            for bits in 1u32..(1 << DEV_NAMES.len()) {
-                if let Some(b) = best {
-                    if bits.count_ones() >= b.count_ones() {
+            // did the program leave the property's subset once some known deviations are taken?
+            let mut oos_under_deviations = false;
+            'search: for k in 1..=3u32 {
+                for bits in 1u32..(1 << DEV_NAMES.len()) {
+                    // `paste-in-api-define` (4) and `duplicate-api-define` (32) were fixed in 9f7cdb8: not offered as
+                    // explanations any more (a regression shows up as `unexplained`)
+                    if bits.count_ones() != k || bits & (4 | 32) != 0 {
                         continue;
                     }
-                }
-                let mut n2 = RefNotes::default();
-                let alt = run_reference(p, Dev::from_bits(bits), &mut n2);
-                let same = match (&real, &alt) {
-                    (Real::Ok(t), Ok(e)) => t == e,
-                    (Real::Err(_), Err(_)) => true,
-                    _ => false,
-                };
-                if same {
-                    best = Some(bits);
+                    let mut n2 = RefNotes::default();
+                    let alt = run_reference(p, Dev::from_bits(bits), &mut n2);
+                    if !n2.out_of_subset.is_empty() {
+                        oos_under_deviations = true;
+                    }
+                    let same = match (&real, &alt) {
+                        (Real::Ok(t), Ok(e)) => t == e,
+                        (Real::Err(_), Err(_)) => true,
+                        _ => false,
+                    };
+                    if same {
+                        best = Some(bits);
+                        break 'search;
+                    }
                 }
             }
             // an unused argument that RSSL expands anyway may itself need a placemarker / meet a painted name
@@ -1525,15 +1774,9 @@ fn judge(p: &Program, out: &mut Out, hist: &mut Hist) {
                 // C needed a placemarker here; RSSL has none and pastes (or expands) whatever is adjacent, in
                 // the order of its rescan, which the switch above reproduces only for the simple shapes
                 class = DEV_NAMES[1].to_string();
-            } else {
-                let mut seen = BTreeSet::new();
-                if p.api.iter().any(|(n, _)| !seen.insert(enc_toks(n))) {
-                    // two entries of one name stay in the macro list side by side: whichever is not disabled is used
-                    class = DEV_NAMES[5].to_string();
-                }
             }
-            let mut na = false;
-            if class == "unexplained" {
+            let mut na = class == "unexplained" && oos_under_deviations;
+            if class == "unexplained" && !na {
                 // an unused argument that RSSL expands anyway may itself lie outside the subset
                 for i in 0..DEV_NAMES.len() {
                     let mut n2 = RefNotes::default();
@@ -1607,8 +1850,178 @@ fn judge_limit(line: &str, p: &Program, out: &mut Out, hist: &mut Hist) {
     }
 }
 
+
+// ------------------------------------------------------------------------------------------------
+// `compile()`: defines passed through the API vs `#define` lines placed before the first line
+// ------------------------------------------------------------------------------------------------
+//
+// request : C12.compile \t <target dx|vk|vkba|msl> \t <defs> \t <expression>
+//   defs  : `|`-separated, in order: `A:HEAD=BODY` (passed through `CompileArgs::defines`) or `F:HEAD=BODY` (a `#define`
+//           line of the entry file); HEAD = `NAME` or `NAME(X)`
+//   the entry file is the `F:` lines followed by `int f(int a) { return <expression>; }`
+// observe : `ok <digest of the generated text>` | `err` | `panic <site>`  (of the program as requested)
+// oracle  : the same program with every `A:` define turned into a `#define` line in front of the first line (API
+//           defines first, in their order) must compile to the same result
+
+fn compile_variant(tgt: crate::compile_util::Tgt, defs: &[(bool, String, String)], expr: &str, all_in_file: bool) -> crate::compile_util::CompileOutcome {
+    use crate::compile_util::*;
+    let mut src = String::new();
+    let mut api: Vec<(String, String)> = Vec::new();
+    if all_in_file {
+        for (is_api, head, body) in defs {
+            if *is_api {
+                src.push_str(&format!("#define {} {}\n", head, body));
+            }
+        }
+    }
+    for (is_api, head, body) in defs {
+        if *is_api {
+            if !all_in_file {
+                api.push((head.clone(), body.clone()));
+            }
+        } else {
+            src.push_str(&format!("#define {} {}\n", head, body));
+        }
+    }
+    src.push_str(&format!("int f(int a) {{ return {}; }}\n", expr));
+    let files = [("main.rssl".to_string(), src)];
+    let defines: Vec<(&str, &str)> = api.iter().map(|(n, v)| (n.as_str(), v.as_str())).collect();
+    compile(&Job { entry: "main.rssl", files: &files, defines: &defines, target: tgt, mode: Mode::NoPipeline, validate_layout: false })
+}
+
+fn judge_compile(line: &str, out: &mut Out, hist: &mut Hist) {
+    use crate::compile_util::*;
+    let f: Vec<&str> = line.split('\t').collect();
+    if f.len() != 4 {
+        out.case(line, "-", "SKIP:bad-request");
+        return;
+    }
+    let Some(tgt) = Tgt::parse(f[1]) else {
+        out.case(line, "-", "SKIP:bad-target");
+        return;
+    };
+    let mut defs = Vec::new();
+    if f[2] != "-" {
+        for d in f[2].split('|') {
+            let Some((place, rest)) = d.split_once(':') else {
+                out.case(line, "-", "SKIP:bad-define");
+                return;
+            };
+            let Some((head, body)) = rest.split_once('=') else {
+                out.case(line, "-", "SKIP:bad-define");
+                return;
+            };
+            defs.push((place == "A", head.to_string(), body.to_string()));
+        }
+    }
+    let a = compile_variant(tgt, &defs, f[3], false);
+    let b = compile_variant(tgt, &defs, f[3], true);
+    let obs = match &a {
+        CompileOutcome::Ok(_) => format!("ok {}", a.digest()),
+        CompileOutcome::Err(_) => "err".to_string(),
+        CompileOutcome::Panic(p) => format!("panic {}", p),
+    };
+    let same = match (&a, &b) {
+        (CompileOutcome::Ok(x), CompileOutcome::Ok(y)) => x == y,
+        (CompileOutcome::Err(_), CompileOutcome::Err(_)) => true,
+        _ => false,
+    };
+    let oracle = if let CompileOutcome::Panic(p) = &a {
+        format!("FAIL:panic {}", p)
+    } else if same {
+        hist.add(if matches!(a, CompileOutcome::Ok(_)) { "compile:same-output" } else { "compile:both-rejected" });
+        "ok".to_string()
+    } else {
+        hist.add("compile:api-defines-differ-from-define-lines");
+        format!("FAIL:compile-differs[api-vs-define-lines] with #define lines: {}", match &b {
+            CompileOutcome::Ok(_) => format!("ok {}", b.digest()),
+            CompileOutcome::Err(e) => format!("err {}", one_line(e)),
+            CompileOutcome::Panic(p) => format!("panic {}", p),
+        })
+    };
+    out.case(line, &obs, &oracle);
+}
+
+fn generate_compile(rng: &mut Rng, hist: &mut Hist) -> String {
+    let tgt = *rng.pick(&["dx", "vk", "vkba", "msl"]);
+    let n = 1 + rng.below(4) as usize;
+    let mut defs: Vec<String> = Vec::new();
+    let mut names: Vec<(String, bool)> = Vec::new(); // (name, function-like)
+    for i in 0..n {
+        // now and then the name of an earlier macro again (redefinition: the later definition wins) or a built-in one
+        let name = if !names.is_empty() && rng.chance(1, 6) {
+            hist.add("compile:redefinition");
+            names[rng.below(names.len() as u64) as usize].0.clone()
+        } else if rng.chance(1, 12) {
+            hist.add("compile:redefines-built-in");
+            "RSSL_TARGET_HLSL".to_string()
+        } else {
+            format!("K{}", i)
+        };
+        let fnlike = rng.chance(1, 3);
+        let operand = |rng: &mut Rng, names: &Vec<(String, bool)>| -> String {
+            let objs: Vec<&String> = names.iter().filter(|(_, f)| !f).map(|(n, _)| n).collect();
+            if !objs.is_empty() && rng.chance(1, 2) {
+                (*rng.pick(&objs)).clone()
+            } else {
+                (1 + rng.below(9)).to_string()
+            }
+        };
+        let body = if fnlike {
+            format!("((X) {} {})", rng.pick(&["+", "*", "-"]), operand(rng, &names))
+        } else if rng.chance(1, 3) {
+            (1 + rng.below(20)).to_string()
+        } else {
+            format!("({} {} {})", operand(rng, &names), rng.pick(&["+", "*", "-"]), operand(rng, &names))
+        };
+        let place = if rng.chance(1, 2) { "A" } else { "F" };
+        let head = if fnlike { format!("{}(X)", name) } else { name.clone() };
+        defs.push(format!("{}:{}={}", place, head, body));
+        names.retain(|(n, _)| *n != name);
+        names.push((name, fnlike));
+    }
+    let mut terms = vec!["a".to_string()];
+    for _ in 0..(1 + rng.below(3)) {
+        let (nm, f) = rng.pick(&names).clone();
+        terms.push(if f {
+            if rng.chance(1, 15) {
+                // wrong number of arguments: the preprocessing error must come out of compile() in both placements
+                hist.add("compile:wrong-arity");
+                format!("{}(a, {})", nm, rng.below(5))
+            } else {
+                format!("{}(a + {})", nm, rng.below(5))
+            }
+        } else {
+            nm
+        });
+    }
+    format!("C12.compile\t{}\t{}\t{}", tgt, defs.join("|"), terms.join(" + "))
+}
+
 pub fn run(args: &Args, out: &mut Out) {
     let mut hist = Hist::default();
+    if std::env::var("C12_WORKER").is_ok() {
+        // worker of a batch: the real code only, one answer line per program
+        use std::io::Write;
+        let stdout = std::io::stdout();
+        for line in args.request_lines().unwrap_or_default() {
+            let r = match Program::decode(&line) {
+                Some(p) if !p.files.is_empty() => {
+                    if program_faithful(&p).is_ok() {
+                        run_real(&p)
+                    } else {
+                        // judged as SKIP by the parent, which checks the rendering itself
+                        Real::Err("unfaithful".into())
+                    }
+                }
+                _ => Real::Err("bad-request".into()),
+            };
+            let mut h = stdout.lock();
+            let _ = writeln!(h, "{}", encode_real(&r));
+            let _ = h.flush();
+        }
+        return;
+    }
     if std::env::var("C12_CHILD").is_ok() {
         // child of a resource test: run the real code only and report the size of its output
         for line in args.request_lines().unwrap_or_default() {
@@ -1624,6 +2037,10 @@ pub fn run(args: &Args, out: &mut Out) {
     }
     if let Some(lines) = args.request_lines() {
         for line in lines {
+            if line.starts_with("C12.compile\t") {
+                judge_compile(&line, out, &mut hist);
+                continue;
+            }
             if line.starts_with("C12.limit\t") {
                 match Program::decode(&line) {
                     Some(p) if !p.files.is_empty() => judge_limit(&line, &p, out, &mut hist),
@@ -1641,12 +2058,129 @@ pub fn run(args: &Args, out: &mut Out) {
     }
     let mut rng = Rng::new(args.seed);
     let n = args.n.unwrap_or(if args.thorough() { 100000 } else { 2000 });
-    let mut programs = 0u64;
+    let mut all: Vec<Program> = Vec::new();
     for _ in 0..n {
         for p in generate(&mut rng, &mut hist) {
-            judge(&p, out, &mut hist);
-            programs += 1;
+            if program_faithful(&p).is_ok() && predicted_to_explode(&p) {
+                hist.add("not-run:expansion-explodes-without-persistent-paint");
+                continue;
+            }
+            all.push(p);
         }
     }
+    let programs = all.len() as u64;
+    run_batch(&all, out, &mut hist);
+    // defines passed to compile() vs #define lines
+    for _ in 0..(if args.thorough() { 4000 } else { 300 }) {
+        let line = generate_compile(&mut rng, &mut hist);
+        judge_compile(&line, out, &mut hist);
+    }
     out.stat(&format!("{{\"programs\":{},\"hist\":{}}}", programs, hist.json()));
+}
+
+fn encode_real(r: &Real) -> String {
+    match r {
+        Real::Ok(t) => format!("W\tok\t{}", t.join(" ")),
+        Real::Err(e) => format!("W\terr\t{}", one_line(e)),
+        Real::Panic(m) => format!("W\tpanic\t{}", one_line(m)),
+    }
+}
+
+fn decode_real(l: &str) -> Option<Real> {
+    let mut f = l.splitn(3, '\t');
+    if f.next()? != "W" {
+        return None;
+    }
+    let kind = f.next()?;
+    let rest = f.next().unwrap_or("");
+    Some(match kind {
+        "ok" => Real::Ok(rest.split(' ').filter(|x| !x.is_empty()).map(|x| x.to_string()).collect()),
+        "err" => Real::Err(rest.to_string()),
+        "panic" => Real::Panic(rest.to_string()),
+        _ => return None,
+    })
+}
+
+/// The real preprocessor runs in a worker process (this executable with `C12_WORKER`), one answer line per program;
+/// a program that takes longer than the time limit (the expansion blow-up, see `expansion-explodes-…` in
+/// known_findings.jsonl) is recorded as not run, the worker is killed and a new one continues behind it.
+fn run_batch(all: &[Program], out: &mut Out, hist: &mut Hist) {
+    use std::io::{BufRead, BufReader};
+    use std::sync::mpsc;
+    use std::time::Duration;
+    let exe = std::env::current_exe().map(|e| e.display().to_string()).unwrap_or_else(|_| "harness".into());
+    let limit = Duration::from_secs(4);
+    let mut next = 0usize;
+    while next < all.len() {
+        let tmp = std::env::temp_dir().join(format!("c12-batch-{}-{}.txt", std::process::id(), next));
+        let text: String = all[next..].iter().map(|p| p.encode() + "\n").collect();
+        if std::fs::write(&tmp, text).is_err() {
+            break;
+        }
+        let child = std::process::Command::new("sh")
+            .arg("-c")
+            .arg(format!("ulimit -v 3000000; exec {} c12 --requests {}", exe, tmp.display()))
+            .env("C12_WORKER", "1")
+            .stdout(std::process::Stdio::piped())
+            .stderr(std::process::Stdio::null())
+            .spawn();
+        let mut child = match child {
+            Ok(c) => c,
+            Err(_) => {
+                // no worker: run in this process
+                for p in &all[next..] {
+                    judge(p, out, hist);
+                }
+                let _ = std::fs::remove_file(&tmp);
+                return;
+            }
+        };
+        let stdout = child.stdout.take().unwrap();
+        let (tx, rx) = mpsc::channel::<String>();
+        let reader = std::thread::spawn(move || {
+            for l in BufReader::new(stdout).lines() {
+                match l {
+                    Ok(l) => {
+                        if tx.send(l).is_err() {
+                            break;
+                        }
+                    }
+                    Err(_) => break,
+                }
+            }
+        });
+        let mut stalled = false;
+        while next < all.len() {
+            match rx.recv_timeout(limit) {
+                Ok(l) => {
+                    if let Some(r) = decode_real(&l) {
+                        judge_with(&all[next], Some(r), out, hist);
+                        next += 1;
+                    }
+                }
+                Err(mpsc::RecvTimeoutError::Timeout) => {
+                    stalled = true;
+                    break;
+                }
+                Err(mpsc::RecvTimeoutError::Disconnected) => {
+                    // the worker died (memory limit): the program it was working on is the culprit
+                    stalled = true;
+                    break;
+                }
+            }
+        }
+        if stalled {
+            let _ = child.kill();
+        }
+        let _ = child.wait();
+        let _ = reader.join();
+        let _ = std::fs::remove_file(&tmp);
+        if stalled && next < all.len() {
+            hist.add("not-run:expansion-explodes-without-persistent-paint(time-or-memory-limit)");
+            if std::env::var("C12_TRACE").is_ok() {
+                eprintln!("EXPLODES {}", all[next].encode());
+            }
+            next += 1;
+        }
+    }
 }
